@@ -3,6 +3,7 @@
 # Like mutate.sh, but never touches /repo's working tree or /verif's evidence/replays: the
 # patch is applied to a scratch worktree of /repo's HEAD and the checks run from a scratch
 # copy of /verif against it (VERIF_REPO). Several of these may run side by side.
+# MUTATE_VERIF_REV=<commit>: use the checks as committed there instead of the working tree.
 # Prints CAUGHT/MISSED/ERROR per property. Not part of the registered checks.
 patch="$(readlink -f "$1")"; shift
 src="$(cd "$(dirname "${BASH_SOURCE[0]}")/.." && pwd)"
@@ -13,7 +14,12 @@ trap cleanup EXIT
 git -C /repo worktree add -q "$top/repo" HEAD || exit 2
 if ! git -C "$top/repo" apply "$patch"; then echo "PATCH-DOES-NOT-APPLY $patch"; exit 2; fi
 mkdir -p "$top/verif"
-rsync -a --exclude .git --exclude .build --exclude replays --exclude evidence --exclude seeded "$src/" "$top/verif/"
+if [ -n "${MUTATE_VERIF_REV:-}" ]; then
+  # the checks as they were at a given commit of /verif (first-contact measurements)
+  git -C "$src" archive "$MUTATE_VERIF_REV" -- bin sim known_findings.json MANIFEST.json | tar -x -C "$top/verif"
+else
+  rsync -a --exclude .git --exclude .build --exclude replays --exclude evidence --exclude seeded "$src/" "$top/verif/"
+fi
 for p in "$@"; do
   out=$(cd "$top/verif" && VERIF_REPO="$top/repo" VERIF_SEED="${VERIF_SEED:-1}" timeout "${MUTATE_TIMEOUT:-1500}" bin/check "$p" "${MUTATE_TIER:-quick}" 2>&1); code=$?
   if [ $code -eq 1 ] && echo "$out" | grep -q "^VIOLATION property=$p"; then
